@@ -69,6 +69,12 @@ class _Absent:
     def __repr__(self):
         return 'ABSENT'
 
+    def __copy__(self):
+        return self
+
+    def __deepcopy__(self, memo):
+        return self
+
 
 ABSENT = _Absent()
 
